@@ -596,7 +596,10 @@ func (c *FuncCtx) atCall(st *State, x *ast.CallExpr) {
 		if cl.Kind == "at" && cl.Name == key && ((!cl.HasLit && cl.Loop == n) || (cl.HasLit && c.atLit[cl] == x)) {
 			nth++
 			c.inAtCall = true
+			savedAt := c.atCallExpr
+			c.atCallExpr = x
 			v := c.evalSpecAt(st, cl.Expr, x.Pos(), c.ghostEnv())
+			c.atCallExpr = savedAt
 			c.inAtCall = false
 			if v.S != tTrue {
 				name := fmt.Sprintf("assert@%s#%d", key, n)
